@@ -67,6 +67,36 @@ func (c *Ctx) alertSummary() {
 	}
 	c.Check(okPass, "R-SUMMARY", fnSendAlert, "sendAlert returns sendAlertLocked(err)", w.Pos(sa.Pos()), "")
 	_ = old
+	// producers of Alert-typed errors: every non-nil error they return is a constant Alert other than close_notify
+	alertProducers := map[string]bool{}
+	for _, nm := range []string{"(*z/tls.halfConn).decrypt", "(*z/tls.halfConn).changeCipherSpec"} {
+		f := w.Fn(nm)
+		if f == nil {
+			continue
+		}
+		idx := errResultIdx(f)
+		ok, n := true, 0
+		for v := range returnClosure(f, idx) {
+			if isNilConst(v) {
+				continue
+			}
+			if _, isPhi := v.(*ssa.Phi); isPhi {
+				continue
+			}
+			n++
+			k, isC := v.(*ssa.Const) // MakeInterface is looked through by the closure
+			if _, isMI := v.(*ssa.MakeInterface); isMI {
+				continue
+			}
+			if !isC || closeNotify(k) || typeStr(k.Type()) != "tls.Alert" {
+				ok = false
+			}
+		}
+		c.Check(ok && n >= 1, "R-SUMMARY", nm, "every non-nil error returned is a constant Alert other than close_notify", w.Pos(f.Pos()), "")
+		if ok && n >= 1 {
+			alertProducers[expand(nm)] = true
+		}
+	}
 	extraNonNil = func(cl *ssa.Call) bool {
 		if setNonNil(cl) {
 			return true
@@ -74,7 +104,15 @@ func (c *Ctx) alertSummary() {
 		if !nameIn(calleeName(&cl.Call), []string{fnSendAlert, fnSendAlertLocked}) || len(cl.Call.Args) != 2 {
 			return false
 		}
-		k, isC := cl.Call.Args[1].(*ssa.Const)
-		return isC && !closeNotify(k)
+		if k, isC := cl.Call.Args[1].(*ssa.Const); isC {
+			return !closeNotify(k)
+		}
+		// sendAlert(err.(Alert)) with err the (non-nil) error of an alert producer
+		if ta, ok := cl.Call.Args[1].(*ssa.TypeAssert); ok {
+			if pc := callOf(ta.X); pc != nil && alertProducers[calleeName(&pc.Call)] {
+				return true
+			}
+		}
+		return false
 	}
 }
